@@ -543,7 +543,7 @@ func (s *TxStore) ExistsUtxo(tx mwdb.ReadTransaction, out *wire.OutPoint) (flags
 	}
 
 	// unspent exists
-	uspKey, credKey, err := existsUnspent(nsUnspent, s.ksmgr.CurrentKeystore().Name(), out)
+	_, credKey, err := existsUnspent(nsUnspent, s.ksmgr.CurrentKeystore().Name(), out)
 	if err != nil {
 		return nil, err
 	}
@@ -579,7 +579,7 @@ func (s *TxStore) ExistsUtxo(tx mwdb.ReadTransaction, out *wire.OutPoint) (flags
 				})
 			return nil, fmt.Errorf("unexpected error")
 		}
-		cred.flags.SpentByUnmined = existsRawUnminedInput(nsUnminedInputs, uspKey) != nil
+		cred.flags.SpentByUnmined = existsRawUnminedInput(nsUnminedInputs, canonicalOutPoint(&out.Hash, out.Index)) != nil
 		return &cred.flags, nil
 	}
 
@@ -607,7 +607,7 @@ func (s *TxStore) ExistsUtxo(tx mwdb.ReadTransaction, out *wire.OutPoint) (flags
 					})
 				return nil, fmt.Errorf("unexpected error")
 			}
-			cred.flags.SpentByUnmined = existsRawUnminedInput(nsUnminedInputs, uspKey) != nil
+			cred.flags.SpentByUnmined = existsRawUnminedInput(nsUnminedInputs, canonicalOutPoint(&out.Hash, out.Index)) != nil
 			return &cred.flags, nil
 		}
 	}
@@ -638,7 +638,7 @@ func (s *TxStore) ExistsUtxo(tx mwdb.ReadTransaction, out *wire.OutPoint) (flags
 						})
 					return nil, fmt.Errorf("unexpected error")
 				}
-				cred.flags.SpentByUnmined = existsRawUnminedInput(nsUnminedInputs, uspKey) != nil
+				cred.flags.SpentByUnmined = existsRawUnminedInput(nsUnminedInputs, canonicalOutPoint(&out.Hash, out.Index)) != nil
 				cred.flags.IsUnmined = true
 				return &cred.flags, nil
 			}
